@@ -760,6 +760,10 @@ def check_batch(seed, n_jobs=None):
     m = dort_model()
     n = int(rng.integers(2, 6))
     sps = [mk_snowpack(rng, "b%d" % i) for i in range(n)]
+    if n_jobs and n_jobs > 1:
+        # simulations of very different cost, the expensive ones submitted first: the workers finish out of submission order
+        n = max(n, 4)
+        sps = [mk_snowpack(rng, "b%d" % i, nlayer=(30 if i % 3 == 0 else 1)) for i in range(n)]
     fr = [float(x) for x in rng.choice(FREQS[1:6], int(rng.integers(2, 4)), replace=False)]
     th = sorted(float(x) for x in rng.choice([15., 25., 35., 45., 55., 65.], int(rng.integers(3, 5)), replace=False))
     th = [th[1], th[0]] + th[2:]          # neither ascending nor descending; the permutation that sorts the cosines is not its own inverse
